@@ -1,4 +1,6 @@
 """Construction of library objects (GEMINIs, estimators) from drawn specs. Imports gemclus from the tree under test."""
+import warnings
+
 import numpy as np
 from hypothesis import strategies as st
 
@@ -20,6 +22,11 @@ def make_mmd(a, ovo, X):
     elif a["form"] == "callable":
         g = G.MMDGEMINI(ovo=ovo, kernel=gens.callable_affinity(a))
         A = g.compute_affinity(X)
+    elif a["form"] == "sk_callable":
+        g = G.MMDGEMINI(ovo=ovo, kernel=gens.sk_function(a), kernel_params=dict(a["params"]) if a["params"] else None)
+        with warnings.catch_warnings():
+            warnings.simplefilter("ignore")
+            A = g.compute_affinity(X)
     elif a["form"] == "foreign":
         g = G.MMDGEMINI(ovo=ovo, kernel=a["name"], kernel_params=dict(a["params"]) if a["params"] else None)
         A = Aref.copy()
@@ -37,6 +44,11 @@ def make_wass(a, ovo, X):
     elif a["form"] == "callable":
         g = G.WassersteinGEMINI(ovo=ovo, metric=gens.callable_affinity(a))
         A = g.compute_affinity(X)
+    elif a["form"] == "sk_callable":
+        g = G.WassersteinGEMINI(ovo=ovo, metric=gens.sk_function(a), metric_params=dict(a["params"]) if a["params"] else None)
+        with warnings.catch_warnings():
+            warnings.simplefilter("ignore")
+            A = g.compute_affinity(X)
     elif a["form"] == "foreign":
         g = G.WassersteinGEMINI(ovo=ovo, metric=a["name"], metric_params=dict(a["params"]) if a["params"] else None)
         A = Aref.copy()
@@ -53,9 +65,9 @@ def gemini_spec(draw, bases=("kl", "tv", "hellinger", "chi2", "mmd", "wasserstei
     base = draw(st.sampled_from(list(bases)))
     gs = {"base": base, "ovo": draw(st.booleans())}
     if base == "mmd":
-        gs["a"] = draw(gens.kernel_spec(forms=kernel_forms or (("named", "callable", "precomputed", "psd", "indef") + (("foreign",) if foreign else ()))))
+        gs["a"] = draw(gens.kernel_spec(forms=kernel_forms or (("named", "callable", "precomputed", "psd", "indef") + (("foreign", "sk_callable") if foreign else ()))))
     elif base == "wasserstein":
-        gs["a"] = draw(gens.metric_spec(forms=metric_forms or (("named", "precomputed", "randdist") + (("foreign",) if foreign else ()))))
+        gs["a"] = draw(gens.metric_spec(forms=metric_forms or (("named", "precomputed", "randdist") + (("foreign", "sk_callable") if foreign else ()))))
     else:
         gs["a"] = None
     if foreign and draw(st.integers(0, 3)) == 0:
@@ -69,7 +81,7 @@ def _decoy(g, a, X):
     rs = np.random.RandomState(a["aseed"] % 1000 + 1)
     X2 = np.abs(X[rs.permutation(len(X))] * 1.7 + 0.3) if gens.needs_nonneg(a) else X[rs.permutation(len(X))] * 1.7 + 0.3
     try:
-        if a["form"] in ("named", "callable"):
+        if a["form"] in ("named", "callable", "sk_callable"):
             g.compute_affinity(X2)
         else:
             g.compute_affinity(X2, gens.ref_affinity_for_form(a, X2))
